@@ -3,6 +3,7 @@ package main
 import (
 	"bufio"
 	"bytes"
+	"encoding/base64"
 	"encoding/binary"
 	"encoding/hex"
 	"fmt"
@@ -501,6 +502,15 @@ func c04(c *Ctx) {
 				x.ProcessPACInfoBuffers(svc.keys[18], nil)
 			}
 		}, iso: pacIsolated(svc.keys[18].KeyValue)},
+		{name: "service.KRB5BasicAuthenticator.Authenticate(header)", corpus: [][]byte{
+			[]byte(base64.StdEncoding.EncodeToString([]byte("testuser1@NOWHERE.REALM:passwordvalue"))),
+			[]byte(base64.StdEncoding.EncodeToString([]byte("NOWHERE\\testuser1:pw"))),
+			[]byte(base64.StdEncoding.EncodeToString([]byte("user:pw")))}, call: func(b []byte) {
+			service.NewKRB5BasicAuthenticator(string(b), config.New(), service.NewSettings(keytab.New()), nil).Authenticate()
+		}},
+		{name: "service.KRB5BasicAuthenticator.Authenticate(decoded)", corpus: [][]byte{[]byte("testuser1@NOWHERE.REALM:passwordvalue"), []byte("NOWHERE\\testuser1:pw"), []byte("user:pw"), []byte("nocolon")}, call: func(b []byte) {
+			service.NewKRB5BasicAuthenticator(base64.StdEncoding.EncodeToString(b), config.New(), service.NewSettings(keytab.New()), nil).Authenticate()
+		}},
 		{name: "kadmin.Reply.Unmarshal", corpus: [][]byte{kadminReply, kadminErr}, call: func(b []byte) { var x kadmin.Reply; x.Unmarshal(b) }},
 		{name: "crypto.DecryptMessage(aes256-sha1)", corpus: [][]byte{ct18.Cipher}, call: func(b []byte) { crypto.DecryptMessage(b, svc.keys[18], 2) }, model: decModel(18)},
 		{name: "crypto.DecryptMessage(rc4)", corpus: [][]byte{ct23.Cipher}, call: func(b []byte) { crypto.DecryptMessage(b, svc.keys[23], 2) }, model: decModel(23)},
